@@ -93,6 +93,18 @@ def sig_arena_case(progs, prefix):
     return c
 
 
+def await_fresh_case(kinds, prefix):
+    c = await_case(kinds, prefix)
+    c[0] = 31
+    return c
+
+
+def memo_chain_case(progs, prefix):
+    c = sig_case(progs, prefix)
+    c[0] = 32
+    return c
+
+
 def try_write_case(kind, prefix):
     return [27, int(kind), list(prefix) + fair(2, 3)]
 
@@ -210,6 +222,18 @@ def generate(rng, tier):
                   for _o in range(rng.choice((1, 2)))] for _t in range(rng.choice((2, 3)))]
         yield dict(case=sig_arena_case(progs, random_schedule(rng, [3 * len(p) for p in progs])), kind="sig-arena")
     for kind in (0, 1, 2):
+        for sch in interleavings([3, 5]):
+            yield dict(case=await_fresh_case([kind], sch), kind="await-fresh-waker")
+    allsch = list(interleavings([3, 3, 5]))
+    for kk in ((1, 1), (0, 2)):
+        for sch in (allsch if thorough else rng.sample(allsch, 600)):
+            yield dict(case=await_fresh_case(list(kk), sch), kind="await-fresh-waker")
+    for sch in interleavings([5, 5]):
+        yield dict(case=memo_chain_case([[[0, 2]], [[2]]], sch), kind="memo-chain", compare=False)
+    allsch = list(interleavings([10, 5]))
+    for sch in (allsch if thorough else rng.sample(allsch, 300)):
+        yield dict(case=memo_chain_case([[[0, 2], [0, 3]], [[2]]], sch), kind="memo-chain", compare=False)
+    for kind in (0, 1, 2):
         for sch in interleavings([2, 1]):
             yield dict(case=try_write_case(kind, sch), kind="try-write", compare=False)
         allsch = list(interleavings([7, 4]))
@@ -263,9 +287,11 @@ def valid_case(item):
             return c == [15]
         if op == 16:
             return len(c) == 3 and c[1] in (0, 1) and all(t in (0, 1) for t in c[2]) and c[2][-12:] == fair(2, 6)
-        if op == 23:
+        if op in (23, 32):
             c3 = [3] + list(c[1:])
             return valid_case(dict(case=c3))
+        if op == 31:
+            return valid_case(dict(case=[1] + list(c[1:])))
         if op == 27:
             return len(c) == 3 and c[1] in (0, 1, 2) and all(t in (0, 1) for t in c[2]) and c[2][-6:] == fair(2, 3)
         if op == 29:
@@ -308,7 +334,7 @@ def oracle(item, impl):
     if not isinstance(impl, list):
         return "harness error: malformed observation %r" % (impl,)
     op = c[0]
-    if op in (1, 10):
+    if op in (1, 10, 31):
         aw, cdone, hang = impl
         if hang:
             return "a thread is blocked forever (await path)"
@@ -331,6 +357,26 @@ def oracle(item, impl):
             return "final signal value %d is not the last write of any thread" % fin
         if not log or log[-1] != fin:
             return "the notified effect did not run after the last write (last saw %r, signal is %d)" % (log[-1:], fin)
+        return None
+    if op == 32:
+        fin_s, _fin_m2, sts, hang = impl
+        if hang or 2 in sts:
+            return "a thread is blocked forever (memo chain)"
+        if 3 in sts:
+            return "a memo read panicked (memo chain)"
+        if any(x != 1 for x in sts):
+            return "a thread did not finish within the bounded extra steps"
+        writes = [[o for o in p if o[0] != 2] for p in c[1]]
+        finals = set()
+        for m in merges(writes):
+            v = 1
+            for o in m:
+                v = o[1] if o[0] == 0 else v + o[1]
+            finals.add(v)
+        if fin_s not in finals:
+            return "final signal value %d is not the result of any sequential order of the writes" % fin_s
+        # the final value of m2 is not judged here: without a chain model a stale m2 could not be told from the
+        # open finding F-C19-d (single memo, scenario 3/23), see coverage/C19.md
         return None
     if op == 27:
         (st1,), st0, fin, hang = impl
@@ -509,8 +555,10 @@ def nontrivial(item, model):
     sched = c[-1]
     if c[0] in (13, 15):
         return True
-    if c[0] == 23:
+    if c[0] in (23, 32):
         c = [3] + list(c[1:])
+    if c[0] == 31:
+        c = [1] + list(c[1:])
     n = {16: lambda: 2, 17: lambda: 2, 18: lambda: 2, 27: lambda: 2, 29: lambda: 2, 30: lambda: 2, 1: lambda: len(c[1]) + 1, 2: lambda: len(c[2]) + 1, 3: lambda: len(c[1]), 4: lambda: 2, 5: lambda: 2,
          7: lambda: 2, 10: lambda: 2, 11: lambda: 2}[c[0]]()
     tail = n * (14 if c[0] in (5, 11) else 3 if c[0] == 7 else 6 if c[0] == 16 else 4 if c[0] in (17, 18) else 3 if c[0] == 27 else 8 if c[0] == 29 else 6 if c[0] == 30 else FAIR_ROUNDS)
@@ -519,7 +567,8 @@ def nontrivial(item, model):
     return switches >= 2
 
 
-NAMES = {23: "signal writes / memo pulls through arena handles", 27: "non-blocking try_write of a signal",
+NAMES = {31: "await path, fresh future and waker per poll", 32: "memo -> memo chain across threads",
+         23: "signal writes / memo pulls through arena handles", 27: "non-blocking try_write of a signal",
          29: "awaiter vs the start of a reload", 30: "effect disposed while its task is polled",
          18: "await vs a user's write guard",
          15: "by_ref guard across an await vs reload (one executor thread)",
